@@ -130,7 +130,7 @@ Definition bspline (k : nat) (q : F) (extrapolate : bool) (data : list G) : opti
   let data' := if extrapolate then bs_pad data else data in
   match windows4 data' with
   | [] => None
-  | W0 :: _ as ws =>
+  | (W0 :: _) as ws =>
       Some (flat_map (fun W => map (fun u => bs_seg W (bs_w u)) (chs_intervals k q)) ws
             ++ [bs_seg (List.last ws W0) bs_wend])
   end.
